@@ -23,6 +23,8 @@ func verifEv(kind int, shard uint8, a, b int64, key any) {}
 
 func verifStagedInc() {}
 
+func verifAckInc() {}
+
 func verifYield(point int) {}
 
 func verifAdopt(id int) {}
